@@ -161,8 +161,29 @@ class LibMixin:
                               patterns=[z3.MultiPattern(pos(i), pos(i2))]))
         path.assume(z3.ForAll([j], sv.Implies(sv.And(0 <= j, j < seq.n, at_src(j, "if")),
                                               sv.And(0 <= inv(j), inv(j) < n, pos(inv(j)) == j)), patterns=[inv(j)]))
+        # consequence (a strictly increasing map of [0,n) into [0,n) is the identity; not found by E-matching):
+        # if nothing was filtered out, every element satisfies the filter and positions coincide
+        path.assume(sv.Implies(n == seq.n, sv.And(
+            z3.ForAll([j], sv.Implies(sv.And(0 <= j, j < seq.n), at_src(j, "if"))),
+            z3.ForAll([i], sv.Implies(sv.And(0 <= i, i < n), pos(i) == i), patterns=[pos(i)]))))
+        w = z3.Int(tag + ".w")
+        path.assume(sv.Implies(n < seq.n, sv.And(0 <= w, w < seq.n, sv.Not(at_src(w, "if")))))
         res = sv.SList(n, lambda k: at_src(pos(k), "elt"), fresh=True)
         res.filter_of = (seq, pos, inv, lambda j: at_src(j, "if"))
+        d = getattr(seq, "dict_src", None)
+        if d is not None and getattr(d, "ksort", None) is not None:
+            def on_key(kk, what, self=self, d=d):
+                p = path.clone()
+                p.env = dict(env0)
+                self.silent += 1
+                try:
+                    self.assign(gen.target, d.val(kk), p)
+                    if what == "elt":
+                        return self.eval(e.elt, p)
+                    return sv.And(*[self.truthy(self.eval(c, p), p) for c in gen.ifs])
+                finally:
+                    self.silent -= 1
+            res.filtered_dict = (d, on_key)
         return res
 
     def lib_kwargs(self, v, path, node):
@@ -420,6 +441,17 @@ class LibMixin:
         finally:
             self.silent -= 1
         path.assume(z3.ForAll([j], sv.Implies(sv.And(0 <= j, j < seq.n), c)))
+        fd = getattr(seq, "filtered_dict", None)
+        if fd is not None:
+            # per key of the dict whose values were filtered: every key passing the filter is bounded
+            d0, on_key = fd
+            kk = z3.Const(sv.uid("mk"), d0.ksort)
+            self.silent += 1
+            try:
+                ck = self.compare(op, res, _strip_none(on_key(kk, "elt")), path, node)
+            finally:
+                self.silent -= 1
+            path.assume(z3.ForAll([kk], sv.Implies(sv.And(d0.dom(kk), on_key(kk, "if")), ck)))
         d = getattr(seq, "dict_src", None)
         if d is not None and getattr(d, "ksort", None) is not None:
             # the same fact per key (a consequence of dict semantics: every key in the domain has a position)
